@@ -40,6 +40,11 @@ def patches(want_muts, want_benign, only):
         for d in sorted(glob.glob(os.path.join(harness.VERIF, "benign", "*"))):
             if os.path.exists(os.path.join(d, "patch.diff")):
                 out.append(("benign", os.path.basename(d), os.path.join(d, "patch.diff"), ALL))
+    if "--staging" in sys.argv:
+        for d in sorted(glob.glob(os.path.join(harness.VERIF, "staging", "*"))):
+            sid = os.path.basename(d)
+            if os.path.exists(os.path.join(d, "patch.diff")):
+                out.append(("mut", sid, os.path.join(d, "patch.diff"), selftest.ALSO.get(sid, [sid.split("-")[0]])))
     if "--holdout" in sys.argv:
         for d in sorted(glob.glob(os.path.join(harness.VERIF, "holdout", "*"))):
             if os.path.exists(os.path.join(d, "patch.diff")):
